@@ -760,8 +760,9 @@ class Matcher(htmc.Matcher):
 
     def __init__(self, depth, ra, dec):
 
-        ra = np.atleast_1d(ra).astype('f8')
-        dec = np.atleast_1d(dec).astype('f8')
+        # the C code indexes along the first axis only
+        ra = np.atleast_1d(ra).astype('f8').ravel()
+        dec = np.atleast_1d(dec).astype('f8').ravel()
 
         if ra.size != dec.size:
             raise ValueError(
@@ -816,9 +817,10 @@ class Matcher(htmc.Matcher):
         if file= is sent then then number of matches is returned.
         """
 
-        ra = np.atleast_1d(ra).astype('f8')
-        dec = np.atleast_1d(dec).astype('f8')
-        radius = np.atleast_1d(radius).astype('f8')
+        # the C code indexes along the first axis only
+        ra = np.atleast_1d(ra).astype('f8').ravel()
+        dec = np.atleast_1d(dec).astype('f8').ravel()
+        radius = np.atleast_1d(radius).astype('f8').ravel()
 
         if ra.size != dec.size:
             raise ValueError(
